@@ -204,6 +204,8 @@ def main(argv=None):
                              mp_context=multiprocessing.get_context("spawn")) as ex:
         futs = {}
         for c in contracts:
+            if c.trusted:
+                continue  # assumed, never verified: listed under assumptions and in the function table
             futs[ex.submit(_verify_worker, c.fq, timeout_ms, seed, jobs)] = ("v", c)
             if has_native_gen(c.spec_module, c.name):
                 futs[ex.submit(_native_worker, c.spec_module, c.name, n_native, seed)] = ("n", c)
@@ -238,6 +240,10 @@ def main(argv=None):
         return None
 
     for c in contracts:
+        if c.trusted:
+            fn_table.append({"function": c.fq, "trusted": True, "obligations": 0,
+                             "note": "contract assumed at call sites, body not verified"})
+            continue
         rep = results.get(c.fq, {"error": "no result", "obligations": []})
         nat = natives.get(c.fq)
         fn_table.append({"function": c.fq, "sha256": rep.get("sha256", "")[:16], "paths": rep.get("paths"),
@@ -318,8 +324,11 @@ def main(argv=None):
                 continue
             if not clause_in_property(c, cl, "ensures", prop):
                 continue
-            sym_failed = any(o_["status"] != "proved" and match_known(c.fq, o_["kind"], o_["clause"]) is None
-                             for o_ in rep["obligations"])
+            # verification is modular: a caller is proved against its callees' CONTRACTS, so when some function of
+            # this run fails its own contract, native failures of its callers are expected consequences, not a
+            # disagreement between the encoding and CPython
+            sym_failed = any(o_["status"] != "proved" and match_known(c2.fq, o_["kind"], o_["clause"]) is None
+                             for c2 in contracts for o_ in results.get(c2.fq, {}).get("obligations", []))
             if not sym_failed and match_known(c.fq, "ensures", cl) is None:
                 tool_errors.append(f"cross-check mismatch: {c.fq} clause {cl} fails natively (input #{hits[0][0]}: "
                                    f"{hits[0][1][:200]}) although every obligation of it was discharged")
